@@ -5,7 +5,7 @@ import Log4rsModel.Routing.Config
 Executable model of the routing tree of `src/lib.rs` (C01, C02), function by function:
 `ConfiguredLogger::{add, find, max_log_level, enabled, log}`, `SharedLogger::new_with_err_handler`
 (name → index map, stable sort by byte length, insertion), `Log for Logger`, and the history machine
-`init_* ; Handle::set_config*` with the `log` facade's global maximum level.
+`init_* ; (Handle::set_config | failing init_*)*` with the `log` facade's global maximum level.
 `FnvHashMap<String, ConfiguredLogger>` is an association list: `get` = `lookup`, `get_mut` + assignment =
 `setChild`, `insert` of an absent key = append.
 -/
@@ -191,6 +191,23 @@ def nameOf (tbl : List Name) (i : Nat) : Name := tbl.getD i []
 def logNode (tbl : List Name) (n : Node) (lvl : Nat) : List Name :=
   if admits n.level lvl then n.apps.map (nameOf tbl) else []
 
+/-- the loop of `ConfiguredLogger::log` when appenders may return `Err`:
+`for &idx in &self.appenders { if let Err(err) = appenders[idx].append(record) { errors.push(err) } }` —
+every index is called, an error is pushed and the loop goes on; `Logger::log` hands the collected errors
+to the error handler afterwards. Result: (appenders called, appenders whose error was reported), in order. -/
+def appendLoop (tbl : List Name) (fails : Name → Bool) : List Nat → List Name × List Name
+  | [] => ([], [])
+  | i :: is =>
+    let r := appendLoop tbl fails is
+    (nameOf tbl i :: r.1, if fails (nameOf tbl i) then nameOf tbl i :: r.2 else r.2)
+
+def logNodeF (tbl : List Name) (fails : Name → Bool) (n : Node) (lvl : Nat) : List Name × List Name :=
+  if admits n.level lvl then appendLoop tbl fails n.apps else ([], [])
+
+/-- `Logger::log` with failing appenders: calls and reported errors -/
+def deliverF (cfg : Config) (fails : Name → Bool) (target : Name) (lvl : Nat) : Option (List Name × List Name) :=
+  (build cfg).map fun tree => logNodeF cfg.appenders fails (find tree (comps target)) lvl
+
 /-- names of the appenders called by `Logger::log` for a record, in call order -/
 def deliver (cfg : Config) (target : Name) (lvl : Nat) : Option (List Name) :=
   (build cfg).map fun tree => logNode cfg.appenders (find tree (comps target)) lvl
@@ -204,37 +221,74 @@ def maxLogLevel (cfg : Config) : Option Nat := (build cfg).map Node.maxLevel
 
 /-! ### history machine of C02 -/
 
-/-- the four initialisation paths; each one builds the logger, calls
-`log::set_max_level(logger.max_log_level())` and installs it -/
+/-- the four initialisation paths; each one builds the logger, installs it with `log::set_boxed_logger`
+and — only when that succeeded (d39d776) — calls `log::set_max_level(logger.max_log_level())` -/
 inductive InitPath where
   | config | configWithErrHandler | rawConfig | file
   deriving Repr, DecidableEq
 
-/-- one process: initialised once, then reconfigured through the handle any number of times -/
+/-- what happens to a process after its first, successful initialisation -/
+inductive Step where
+  /-- `Handle::set_config(cfg)` -/
+  | setConfig (cfg : Config)
+  /-- a further `init_*` call: `set_boxed_logger` refuses (a logger is installed), the call returns `Err` -/
+  | reinit (path : InitPath) (cfg : Config)
+
+/-- one process: initialised once, then any sequence of reconfigurations through the handle and of
+further (failing) initialisation attempts -/
 structure History where
   path : InitPath
   first : Config
-  reconfigs : List Config
+  steps : List Step
 
 structure State where
   cfg : Config          -- configuration of the installed `SharedLogger`
   globalMax : Nat       -- `log::max_level()`
+  deriving Repr, DecidableEq
 
-/-- `init_*` and `Handle::set_config` alike: build, `set_max_level(max_log_level())`, install/store -/
+/-- the first `init_*` and `Handle::set_config` alike: build, install/store, `set_max_level(max_log_level())` -/
 def install (cfg : Config) : Option State :=
   (build cfg).map fun tree => { cfg := cfg, globalMax := tree.maxLevel }
 
-def reconfigure : State → List Config → Option State
+/-- A further initialisation attempt returns `Err` and, in the code as it is now (`fixed = true`), changes
+nothing. `fixed = false` keeps the historical behaviour (before d39d776): the attempt, when it got as
+far as `set_boxed_logger` (a configuration the builder accepts), had already called
+`log::set_max_level` with the *rejected* logger's maximum, while the installed logger stayed. -/
+def reinit (fixed : Bool) (s : State) (_path : InitPath) (cfg : Config) : State :=
+  if fixed then s
+  else if validB cfg then
+    match build cfg with
+    | some tree => { s with globalMax := tree.maxLevel }
+    | none => s
+  else s
+
+/-- the `Result` of a further initialisation attempt is never `Ok` -/
+def reinitReturnsOk : Bool := false
+
+def step (fixed : Bool) (s : State) : Step → Option State
+  | .setConfig c => install c
+  | .reinit p c => some (reinit fixed s p c)
+
+def steps (fixed : Bool) : State → List Step → Option State
   | s, [] => some s
-  | _, c :: cs =>
-    match install c with
-    | some s' => reconfigure s' cs
+  | s, st :: rest =>
+    match step fixed s st with
+    | some s' => steps fixed s' rest
     | none => none
 
-def run (h : History) : Option State :=
+def runWith (fixed : Bool) (h : History) : Option State :=
   match install h.first with
-  | some s => reconfigure s h.reconfigs
+  | some s => steps fixed s h.steps
   | none => none
+
+/-- the code as it is -/
+def run (h : History) : Option State := runWith true h
+
+/-- the configurations that were installed, in order: the first one and every `set_config` -/
+def installedCfgs (h : History) : List Config :=
+  h.first :: h.steps.filterMap fun
+    | .setConfig c => some c
+    | .reinit _ _ => none
 
 /-- the `log!` macros: `if lvl <= log::max_level() { logger.log(record) }` (facade contract) -/
 def macroLog (s : State) (target : Name) (lvl : Nat) : Option (List Name) :=
